@@ -1,4 +1,71 @@
-import PysnarkModel.Spec.Shape
+import PysnarkModel.Lemmas.OblRun
+import PysnarkModel.Spec.R1CS
+/-!
+# C06 — the constraint system does not depend on the values processed
+
+Quantifier: all programs of the instruction language (every operator, assertion, conversion,
+selection, guarded region, array access, configuration change), all pairs of initial states of
+equal shape (so witness values and the error-suppression flag may differ: "valid run vs. run in
+ignore-errors mode on invalid inputs"), all pairs of input literals, both outcomes of every secret
+condition, every bitlength, every modulus.  Both runs must complete.
+-/
 namespace Pysnark
-example : True := trivial
+
+/-- two completing runs of the same program (up to input literals and revealed values, which are
+only used to create witnesses) end in states of equal shape — same number and kind of variables,
+same constraints with the same coefficients, same guard/ONE wire expressions — and every register
+holds values of equal shape (equal wire expressions). -/
+def C06_full : Prop :=
+  ∀ (s1 s2 : St), s1.shape = s2.shape → ∀ (p1 p2 : List Instr), ProgRel p1 p2 →
+  ∀ (o1 o2 : Out), run s1 p1 = o1 → run s2 p2 = o2 → o1.err = none → o2.err = none →
+    o1.st.shape = o2.st.shape ∧ o1.regs.length = o2.regs.length ∧
+    ∀ (k : Nat) (i : Instr) (v1 v2 : Val), p1[k]? = some i → o1.regs[k]? = some v1 → o2.regs[k]? = some v2 → RegRel i v1 v2
+
+theorem C06 : C06_full := fun s1 s2 hs p1 p2 hrel o1 o2 h1 h2 he1 he2 =>
+  run_oblivious s1 s2 hs p1 p2 hrel o1 o2 h1 h2 he1 he2
+
+/-- Boolean checker for `FreeOnlyMk`, so that concrete programs can be discharged by `decide` -/
+def freeOnlyMkB (prog : List Instr) : Bool :=
+  (List.range prog.length).all fun k =>
+    match prog[k]? with
+    | some ik => !ik.isFree || prog.all (fun ij => !(ij.reads.contains k) || ij.isMk)
+    | none => true
+
+theorem freeOnlyMk_of_B (prog : List Instr) (h : freeOnlyMkB prog = true) : FreeOnlyMk prog := by
+  intro k j ik ij hk hfree hj hread
+  unfold freeOnlyMkB at h
+  rw [List.all_eq_true] at h
+  have hklt : k < prog.length := by
+    rcases Nat.lt_or_ge k prog.length with h' | h'
+    · exact h'
+    · rw [List.getElem?_eq_none h'] at hk; cases hk
+  have := h k (List.mem_range.mpr hklt)
+  simp only [hk, hfree, Bool.not_true, Bool.false_or] at this
+  rw [List.all_eq_true] at this
+  have hmem : ij ∈ prog := List.mem_of_getElem? hj
+  have := this ij hmem
+  simp only [Bool.or_eq_true, Bool.not_eq_true', List.contains_eq_mem, decide_eq_false_iff_not] at this
+  rcases this with h1 | h1
+  · exact absurd hread h1
+  · exact h1
+
+/-! non-vacuity: `x < y` followed by a selection and a guarded assertion, run on a valid input
+with checks on and on an invalid input (300 does not fit 8 bits; guard false) with checks off:
+the hypotheses hold and both runs complete -/
+def exProg (a b g : Int) : List Instr :=
+  [.lit (.int a), .mk .priv 0, .lit (.int b), .mk .priv 2, .bin .lt 1 3, .ite 4 1 3,
+   .lit (.int g), .mk .priv 6, .genter 7, .call .assertLt 1 [3], .gleave, .bin .mul 5 1]
+
+example : ProgRel (exProg 5 7 1) (exProg 300 (-2) 0) ∧
+    (St.init 97 8 8).shape = ({ St.init 97 8 8 with ignoreErrors := true }).shape ∧
+    (run (St.init 97 8 8) (exProg 5 7 1)).err = none ∧
+    (run { St.init 97 8 8 with ignoreErrors := true } (exProg 300 (-2) 0)).err = none := by
+  refine ⟨⟨?_, freeOnlyMk_of_B _ (by decide), freeOnlyMk_of_B _ (by decide)⟩, rfl, by decide +kernel, by decide +kernel⟩
+  unfold exProg
+  repeat first
+    | exact Forall2.nil
+    | refine Forall2.cons ?_ ?_
+    | exact Or.inl rfl
+    | exact Or.inr (Or.inl ⟨_, _, rfl, rfl⟩)
+
 end Pysnark
